@@ -75,25 +75,52 @@ def one(rep, rng, j, fixed=None):
                 p = {'d': [['x', {'m': 'enum', 'of': list(rng.choice(valgen.ENUMS))}]]}
             q = valgen.gen_value(rng, 1) if rng.random() < 0.3 else {'s': None}
             descs.append([m, c, p, q])
+        if fixed is None and descs and rng.random() < 0.15:
+            # a second task that Python considers EQUAL to an existing one but that is written differently
+            # (1 / 1.0 / True, dict items in another order): another cache key, hence another entry
+            base = rng.choice(descs)
+            pe = valgen.python_equal_respell(rng, {'task': list(base)})
+            if pe is not None:
+                descs.append(pe['task'])
         if fixed is not None:
             descs = fixed['descs']
         wit = {'descs': descs, 'storage': skind}
         tops = [build(*d) for d in descs]
-        if python_equal_collision(all_tasks(tops)):
-            rep.count('skipped_python_equal_collision')
-            return
-        res = lab.run_tasks(tops, disable_progress=True, disable_top=True)
+        separate = python_equal_collision(all_tasks(tops))
+        if separate:
+            # tasks that differ only in scalar type (1 / 1.0 / True) are ONE task for Python within a single
+            # run_tasks call; cached by separate calls they are separate entries and must all be listed
+            if any(python_equal_collision(all_tasks([t])) for t in tops):
+                rep.count('skipped_python_equal_collision_inside_one_task')
+                return
+            rep.count('cases_with_python_equal_tasks_cached_by_separate_calls')
+            for t in tops:
+                lab.run_tasks([t], disable_progress=True, disable_top=True)
+        else:
+            lab.run_tasks(tops, disable_progress=True, disable_top=True)
         universe = all_tasks(tops)
         marker_tasks = [t for t, d in zip(tops, descs) if '"m"' in json.dumps(d[2])]
 
         def is_marker(t):
             return any(t is mt or (type(t) is type(mt) and t == mt) for mt in marker_tasks)
+        def tk(t):
+            return (type(t).__module__, type(t).__qualname__, t.cache_key)
         orig_meta = {}
+        stack, seen_ids = list(tops), set()
+        from vlab.body import walk_deps as _wd
+        while stack:        # every instance (not only one representative): an instance inside a task that was
+            x = stack.pop()  # loaded from the cache is legitimately unmarked, its twin elsewhere is marked
+            if id(x) in seen_ids:
+                continue
+            seen_ids.add(id(x))
+            if x.result_meta is not None:
+                orig_meta.setdefault(tk(x), x.result_meta)
+            stack.extend(_wd(x))
         for t in universe:
-            orig_meta[t] = t.result_meta
+            orig_meta.setdefault(tk(t), None)
         values = {}
         for t in universe:
-            values[t] = ('val', type(t).__module__, type(t).__qualname__, t.cache_key)
+            values[tk(t)] = ('val', type(t).__module__, type(t).__qualname__, t.cache_key)
         has_nested_coll = any(('task' in json.dumps(d[2]) or '"e"' in json.dumps(d[2])) and
                               any(k in d[2] for k in ('l', 't', 'd', 'fd')) for d in descs)
         types_present = sorted({(type(t).__module__, type(t).__qualname__) for t in universe})
@@ -124,6 +151,9 @@ def one(rep, rng, j, fixed=None):
             want = [t for t in universe if type(t) in tl]
             for t in want:
                 matches = [g for g in got if type(g) is type(t) and g == t]
+                if separate:
+                    # several python-equal entries may exist: the one for t is the equal task with t's own key
+                    matches = [g for g in matches if g.cache_key == t.cache_key]
                 if len(matches) != 1:
                     same_key = [g for g in got if getattr(g, 'cache_key', None) == t.cache_key]
                     key = 'marker-dict-collision' if is_marker(t) else \
@@ -136,9 +166,9 @@ def one(rep, rng, j, fixed=None):
                 rep.count('reconstructions_checked')
                 if g.cache_key != t.cache_key:
                     rep.violation('reconstructed-key-differs', f'{g!r}: {g.cache_key} != {t.cache_key}', wit)
-                if g.result_meta != orig_meta[t] or g.result_meta is None:
+                if g.result_meta != orig_meta[tk(t)] or g.result_meta is None:
                     rep.violation('reconstructed-meta-differs', f'{g!r}: result_meta {g.result_meta} != stored '
-                                  f'{orig_meta[t]}', wit)
+                                  f'{orig_meta[tk(t)]}', wit)
             for g in got:
                 if not any(type(g) is type(t) and g == t for t in want):
                     if type(g) not in tl:
@@ -149,16 +179,19 @@ def one(rep, rng, j, fixed=None):
             if tl is lists[len(allT)] or len(tl) == 1:
                 # running the returned tasks must load, not execute
                 ok_got = [g for g in got if any(type(g) is type(t) and g == t for t in want)]
-                if ok_got:
+                for batch in ([[g] for g in ok_got] if separate else [ok_got]):
+                    if not batch:
+                        continue
                     try:
-                        res2 = lab2.run_tasks(ok_got, disable_progress=True, disable_top=True)
+                        res2 = lab2.run_tasks(batch, disable_progress=True, disable_top=True)
                     except BaseException as ex:   # noqa
                         rep.violation(f'rerun-raised:{type(ex).__name__}', f'run_tasks(cached_tasks(..)) raised {ex}', wit)
                     else:
-                        for g, v in res2.items():
+                        for g in batch:
                             rep.count('reloads_checked')
-                            if tuple(v) != values[g]:
-                                rep.violation('reload-wrong-value', f'{g!r} loaded {v}, stored {values[g]}', wit)
+                            v = res2.get(g)
+                            if v is None or tuple(v) != values.get(tk(g)):
+                                rep.violation('reload-wrong-value', f'{g!r} loaded {v}, stored {values.get(tk(g))}', wit)
         execs = [e for e in events.read_events(ctl)[pre_events:] if e['k'] == 'vstart']
         if execs:
             rep.violation('reload-executed', f'running the returned tasks executed {len(execs)} task(s) again', wit)
